@@ -26,9 +26,11 @@ class Obj:
 
 
 class World:
-    def __init__(self, with_pid0=False, ncpus=4):
+    def __init__(self, with_pid0=False, ncpus=4, first_tick=100):
         self.k = simk.Kernel(ncpus=ncpus)
-        self.tick = 100
+        # first_tick=-1: the first process of the pool starts at tick 0 (its
+        # start time since boot is exactly 0.0, as for early-boot processes)
+        self.tick = first_tick
         self.objs = []
         self.events = []
         self.recycled_pids = set()
@@ -182,6 +184,16 @@ class World:
                     o.cm = None
                     cm.__exit__(None, None, None)
             return True
+        if kind == "iter_keep":
+            # a complete pass over a cleared cache: every yielded object is
+            # fresh (built for the current owner of its PID) and stays cached;
+            # the objects of the pool's PIDs are kept for later questions
+            psutil.process_iter.cache_clear()
+            for pr in psutil.process_iter():
+                if pr.pid in PID_POOL:
+                    self.objs.append(Obj(pr, pr.pid, self.owner_inc(pr.pid)))
+                    self.events.append(("kept-from-process_iter", pr.pid))
+            return True
         if kind == "wait":
             o = self.pick_obj(op[1])
             if o is None or getattr(o, "popen", False):
@@ -234,7 +246,35 @@ def extra_ops():
         st.tuples(st.just("oneshot"), i, st.sampled_from([True, True, False])),
         st.tuples(st.just("wait"), i, st.sampled_from([0, 0, 0.01])),
         st.tuples(st.just("wait"), i, st.sampled_from([0, 0, 0.01])),
+        st.tuples(st.just("iter_keep")),
     ]
+
+
+def with_motifs(single_ops, min_size, max_size, extra_motifs=()):
+    """Op-list strategy: mostly independent ops, with a few multi-op motifs
+    spliced in (sequences whose steps each matter and that independent draws
+    would almost never line up): the result is still a flat list of plain ops."""
+    i = st.integers(0, 5)
+    z = st.booleans()
+    ALL = 10   # index that addresses every object (is_running / oneshot)
+    motifs = [
+        # a fresh cached object for the new owner of a PID, reuse then
+        # noticed through an older object, another pass, then questions
+        st.tuples(i, z).map(lambda t: [("recycle", t[0], t[1]), ("iter_keep",), ("is_running", ALL),
+                                       ("process_iter", 8), ("is_running", ALL)]),
+        # object, death, reaping, same PID again, second object
+        i.map(lambda n: [("mkproc", n, False), ("exit", n), ("reap", n),
+                         ("spawn", n, False, False), ("mkproc", n, False), ("is_running", ALL)]),
+        # questions asked inside one open oneshot() block around a recycle
+        st.tuples(i, z).map(lambda t: [("oneshot", ALL, True), ("is_running", ALL), ("recycle", t[0], t[1]),
+                                       ("is_running", ALL), ("oneshot", ALL, False)]),
+        # wait() returns, the PID is taken again
+        i.map(lambda n: [("exit", n), ("wait", n, 0), ("reap", n), ("recycle", n, False)]),
+    ] + list(extra_motifs)
+    one = st.one_of(*single_ops).map(lambda o: [o])
+    piece = st.one_of(one, one, one, one, one, one, one, one, st.one_of(*motifs))
+    return st.lists(piece, min_size=min_size, max_size=max_size).map(
+        lambda ps: [op for p_ in ps for op in p_][:max_size + 8])
 
 
 def query_ops():
